@@ -23,29 +23,29 @@ open Eru.Cluster
 variable {R : Type} [ResAlg R]
 
 /-- **remove**: whatever single step fails, a removal that reports failure changed nothing. -/
-theorem remove_failed_part_no_effect (w : Wl R) (flt : Option Addr) (s : State R)
+theorem remove_failed_part_no_effect (w : Wl R) (flt : Option Addr) (s : State R) (cancel : Option (Addr × Bool))
     (hnd : (s.wls.map (·.id)).Nodup) (hw : w ∈ s.wls) :
-    (run (removeTxn w) flt s).1 = .fail →
-      AbsEq s (run (removeTxn w) flt s).2.st ∧ (run (removeTxn w) flt s).2.st.cts = s.cts :=
-  removeTxn_failed_no_effect w flt { st := s } hnd hw
+    (run (removeTxn w) flt s cancel).1 = .fail →
+      AbsEq s (run (removeTxn w) flt s cancel).2.st ∧ (run (removeTxn w) flt s cancel).2.st.cts = s.cts :=
+  removeTxn_failed_no_effect w flt { st := s, cancel := cancel } hnd hw
 
 /-- **dissociate** -/
-theorem dissociate_failed_part_no_effect (w : Wl R) (flt : Option Addr) (s : State R) :
-    (run (dissociateTxn w) flt s).1 = .fail →
-      AbsEq s (run (dissociateTxn w) flt s).2.st ∧ (run (dissociateTxn w) flt s).2.st.cts = s.cts :=
-  dissociateTxn_failed_no_effect w flt { st := s }
+theorem dissociate_failed_part_no_effect (w : Wl R) (flt : Option Addr) (s : State R) (cancel : Option (Addr × Bool)) :
+    (run (dissociateTxn w) flt s cancel).1 = .fail →
+      AbsEq s (run (dissociateTxn w) flt s cancel).2.st ∧ (run (dissociateTxn w) flt s cancel).2.st.cts = s.cts :=
+  dissociateTxn_failed_no_effect w flt { st := s, cancel := cancel }
 
 /-- **realloc** (repaired code): also when the plugin has already committed the delta. -/
-theorem realloc_failed_no_effect (w : Wl R) (answer : Option (R × R)) (flt : Option Addr) (s : State R)
+theorem realloc_failed_no_effect (w : Wl R) (answer : Option (R × R)) (flt : Option Addr) (s : State R) (cancel : Option (Addr × Bool))
     (hnd : (s.wls.map (·.id)).Nodup) (hw : w ∈ s.wls) :
-    (run (doReallocOnNode w answer) flt s).1 = .fail →
-      AbsEq s (run (doReallocOnNode w answer) flt s).2.st ∧ (run (doReallocOnNode w answer) flt s).2.st.cts = s.cts :=
-  doReallocOnNode_failed_no_effect w answer flt { st := s } hnd hw
+    (run (doReallocOnNode w answer) flt s cancel).1 = .fail →
+      AbsEq s (run (doReallocOnNode w answer) flt s cancel).2.st ∧ (run (doReallocOnNode w answer) flt s cancel).2.st.cts = s.cts :=
+  doReallocOnNode_failed_no_effect w answer flt { st := s, cancel := cancel } hnd hw
 
 /-- **set-node** (repaired code): a failed call restores the capacity. -/
-theorem setNode_failed_no_effect (n : String) (newCap : Option R) (flt : Option Addr) (s : State R) :
-    (run (setNode n newCap) flt s).1 = .fail → AbsEq s (run (setNode n newCap) flt s).2.st :=
-  Eru.Cluster.setNode_failed_no_effect n newCap flt { st := s }
+theorem setNode_failed_no_effect (n : String) (newCap : Option R) (flt : Option Addr) (s : State R) (cancel : Option (Addr × Bool)) :
+    (run (setNode n newCap) flt s cancel).1 = .fail → AbsEq s (run (setNode n newCap) flt s cancel).2.st :=
+  Eru.Cluster.setNode_failed_no_effect n newCap flt { st := s, cancel := cancel }
 
 /-- set-node as found (D25: the rollback call changed nothing) did NOT have the property. -/
 theorem setNode_unrepaired_counterexample :
@@ -58,27 +58,27 @@ theorem setNode_unrepaired_counterexample :
 later node, WAL, marker, …) then, after the rollback that `utils.Txn` runs, the workload records and
 every node's usage are exactly what they were before the call — whatever earlier nodes had been
 allocated is given back. -/
-theorem create_failed_cond_no_effect (a : CreateArgs R) (flt : Option Addr) (s : State R) (h : Inv s) :
-    (run (createCond a) flt s).1 = .fail →
-      (exec (createRollback a true) flt (run (createCond a) flt s).2).st.wls = s.wls ∧
-      (exec (createRollback a true) flt (run (createCond a) flt s).2).st.usage = s.usage :=
-  createCond_failure_restores a flt { st := s } ⟨h, rfl, rfl⟩
+theorem create_failed_cond_no_effect (a : CreateArgs R) (flt : Option Addr) (s : State R) (cancel : Option (Addr × Bool)) (h : Inv s) :
+    (run (createCond a) flt s cancel).1 = .fail →
+      (exec (withDetached (createRollback a true)) flt (run (createCond a) flt s cancel).2).st.wls = s.wls ∧
+      (exec (withDetached (createRollback a true)) flt (run (createCond a) flt s cancel).2).st.usage = s.usage :=
+  createCond_failure_restores a flt { st := s, cancel := cancel } ⟨h, rfl, rfl⟩
 
 /-- **create, the whole call incl. deferred WAL commits and marker deletions**: if every message of
 the stream reports failure (the single error message of a failing condition step, or all instances
 failed) the call changed nothing: same nodes, capacity, usage, records; no new container. -/
 theorem create_failed_no_effect (a : CreateArgs R) (hnd : (a.plan.map (·.1)).Nodup) (flt : Option Addr)
-    (s : State R) (h : Inv s) :
-    okIds (run (create a) flt s).2.msgs = [] →
-      AbsEq s (run (create a) flt s).2.st ∧ ∀ c ∈ (run (create a) flt s).2.st.cts, ∃ c0 ∈ s.cts, c0.id = c.id :=
-  create_all_failed a hnd flt s h
+    (s : State R) (cancel : Option (Addr × Bool)) (h : Inv s) :
+    okIds (run (create a) flt s cancel).2.msgs = [] →
+      AbsEq s (run (create a) flt s cancel).2.st ∧ ∀ c ∈ (run (create a) flt s cancel).2.st.cts, ∃ c0 ∈ s.cts, c0.id = c.id :=
+  create_all_failed a hnd flt s cancel h
 
 /-- **add-node**: whatever single step fails (engine info, plugin AddNode, store AddNode) a failed
 call leaves nodes, plugin records, capacity, usage and workloads as they were (the plugin record
 created in the condition step is removed again). -/
-theorem addNode_failed_no_effect (n : String) (c : R) (flt : Option Addr) (s : State R) (hwf : PluginWF s) :
-    (run (addNode n c) flt s).1 = .fail → NodeAbsEq s (run (addNode n c) flt s).2.st :=
-  addNode_failed n c flt { st := s } (fun h => hwf.1 n (by simpa using h)) (hwf.2 n)
+theorem addNode_failed_no_effect (n : String) (c : R) (flt : Option Addr) (s : State R) (cancel : Option (Addr × Bool)) (hwf : PluginWF s) :
+    (run (addNode n c) flt s cancel).1 = .fail → NodeAbsEq s (run (addNode n c) flt s cancel).2.st :=
+  addNode_failed n c flt { st := s, cancel := cancel } (fun h => hwf.1 n (by simpa using h)) (hwf.2 n)
 
 /-- `PluginWF` (an absent plugin record reads as zero; every store node has a plugin record) is kept
 by successful add-node and remove-node (`pluginWF_addNode_ok`, `pluginWF_removeNode_ok`); the other
@@ -93,10 +93,11 @@ def PropC11RemoveNode : Prop :=
   ∀ (n : String) (flt : Option Addr) (s : State Int),
     (run (removeNode n) flt s).1 = .fail → NodeAbsEq s (run (removeNode n) flt s).2.st
 
-/-- **remove-node, partial**: every fault except one on the plugin's RemoveNode call. -/
+/-- **remove-node, partial**: every fault except one on the plugin's RemoveNode call, caller not cancelled
+(a caller cancelled after the store record is gone makes the plugin call fail just the same: D16c again). -/
 theorem removeNode_failed_no_effect_partial (n : String) (flt : Option Addr) (hG : RemoveNodeGuard flt)
     (s : State R) : (run (removeNode n) flt s).1 = .fail → NodeAbsEq s (run (removeNode n) flt s).2.st :=
-  removeNode_failed_partial n flt hG { st := s }
+  removeNode_failed_partial n flt hG { st := s } ⟨rfl, rfl⟩
 
 /-- **D16c in the model**: the store record is deleted in the condition step, the plugin call of the
 then step fails, the rollback does nothing: the call reports failure and the node is gone. -/
@@ -112,38 +113,38 @@ theorem removeNode_failed_counterexample : ¬ PropC11RemoveNode := by
 
 /-- **ReallocResource returns an error ⇒ nothing changed** -/
 theorem realloc_api_failed_no_effect (node : String) (id : Nat) (answer : Option (R × R)) (flt : Option Addr)
-    (s : State R) (hnd : (s.wls.map (·.id)).Nodup) :
-    (run (realloc node id answer) flt s).1 = .fail →
-      AbsEq s (run (realloc node id answer) flt s).2.st ∧ (run (realloc node id answer) flt s).2.st.cts = s.cts :=
-  realloc_failed node id answer flt { st := s } hnd
+    (s : State R) (cancel : Option (Addr × Bool)) (hnd : (s.wls.map (·.id)).Nodup) :
+    (run (realloc node id answer) flt s cancel).1 = .fail →
+      AbsEq s (run (realloc node id answer) flt s cancel).2.st ∧ (run (realloc node id answer) flt s cancel).2.st.cts = s.cts :=
+  realloc_failed node id answer flt { st := s, cancel := cancel } hnd
 
 /-- **RemoveWorkload / DissociateWorkload, whole call**: whatever the fault, the records after the
 call are exactly the records before minus those whose message reports success, and usage is again
 the sum of the remaining records — so every workload whose message reports failure is recorded
 unchanged and no usage of it was released. -/
 theorem remove_api_exact (firstNode : String) (groups : List (String × List Nat)) (flt : Option Addr)
-    (s : State R) (h : Inv s) :
-    let ms' := (run (remove firstNode groups) flt s).2
+    (s : State R) (cancel : Option (Addr × Bool)) (h : Inv s) :
+    let ms' := (run (remove firstNode groups) flt s cancel).2
     Inv ms'.st ∧ ∀ x, x ∈ ms'.st.wls ↔ (x ∈ s.wls ∧ ¬ x.id ∈ okIds ms'.msgs) :=
   removeLike_rmInv removeTxn true firstNode groups flt pres_removeTxn
-    (fun w ms hnd hw => removeTxn_wls w flt ms hnd hw) s { st := s }
+    (fun w ms hnd hw => removeTxn_wls w flt ms hnd hw) s { st := s, cancel := cancel }
     ⟨h, fun x => ⟨fun hx => ⟨hx, by simp [okIds]⟩, fun hx => hx.1⟩⟩
 
 theorem dissociate_api_exact (firstNode : String) (groups : List (String × List Nat)) (flt : Option Addr)
-    (s : State R) (h : Inv s) :
-    let ms' := (run (dissociate firstNode groups) flt s).2
+    (s : State R) (cancel : Option (Addr × Bool)) (h : Inv s) :
+    let ms' := (run (dissociate firstNode groups) flt s cancel).2
     Inv ms'.st ∧ ∀ x, x ∈ ms'.st.wls ↔ (x ∈ s.wls ∧ ¬ x.id ∈ okIds ms'.msgs) :=
   removeLike_rmInv dissociateTxn false firstNode groups flt pres_dissociateTxn
-    (fun w ms hnd hw => dissociateTxn_wls w flt ms hnd hw) s { st := s }
+    (fun w ms hnd hw => dissociateTxn_wls w flt ms hnd hw) s { st := s, cancel := cancel }
     ⟨h, fun x => ⟨fun hx => ⟨hx, by simp [okIds]⟩, fun hx => hx.1⟩⟩
 
 /-- **ReplaceWorkload, one id, partial (D13)**: the call's message is the last of the stream; if it
 reports failure the workload to replace satisfies `ReplaceFailPost`. -/
 theorem replace_api_failed_partial (node : String) (id : Nat) (flt : Option Addr) (hG : ReplaceGuard flt)
-    (s : State R) (h : Inv s) :
-    ∃ ok, (run (replace node id) flt s).2.msgs.getLast? = some ⟨node, id, ok, none⟩ ∧
-      (ok = false → ∀ w ∈ s.wls, w.id = id → ReplaceFailPost w s (run (replace node id) flt s).2.st) :=
-  replace_failed_partial node id flt hG { st := s } h
+    (s : State R) (cancel : Option (Addr × Bool)) (h : Inv s) :
+    ∃ ok, (run (replace node id) flt s cancel).2.msgs.getLast? = some ⟨node, id, ok, none⟩ ∧
+      (ok = false → ∀ w ∈ s.wls, w.id = id → ReplaceFailPost w s (run (replace node id) flt s cancel).2.st) :=
+  replace_failed_partial node id flt hG { st := s, cancel := cancel } h
 
 /-- **The full statement for replace** (false, see the counterexample). -/
 def PropC11Replace : Prop :=
@@ -153,10 +154,10 @@ def PropC11Replace : Prop :=
 /-- **replace, partial** (faults on the removal of the old workload excluded): a failed replace
 leaves nodes, capacity, usage and records as they were, and the old workload's container is
 there — started again if the replace had stopped it. -/
-theorem failed_replace_keeps_old_partial (w : Wl R) (flt : Option Addr) (hG : ReplaceGuard flt) (s : State R)
+theorem failed_replace_keeps_old_partial (w : Wl R) (flt : Option Addr) (hG : ReplaceGuard flt) (s : State R) (cancel : Option (Addr × Bool))
     (h : Inv s) (hw : w ∈ s.wls) :
-    (run (doReplaceWorkload w) flt s).1 = .fail → ReplaceFailPost w s (run (doReplaceWorkload w) flt s).2.st :=
-  doReplaceWorkload_failed_partial w flt hG { st := s } h hw
+    (run (doReplaceWorkload w) flt s cancel).1 = .fail → ReplaceFailPost w s (run (doReplaceWorkload w) flt s cancel).2.st :=
+  doReplaceWorkload_failed_partial w flt hG { st := s, cancel := cancel } h hw
 
 /-- **D13 in the model**: the store refuses to remove the old record → the replace reports failure
 but the new workload stays recorded. -/
